@@ -115,7 +115,7 @@ def apply_spec(fns, path):
                 setattr(f, k, int(v))
             elif k == 'flags':
                 f.flags = v.split()
-            elif k in ('cover', 'no_enforce', 'no_loop_contracts'):
+            elif k in ('cover', 'no_enforce', 'no_loop_contracts', 'rec'):
                 setattr(f, k, v not in ('0', 'false', 'no'))
             else:
                 setattr(f, k, v)
@@ -340,7 +340,7 @@ def cache_key(kind, text, f, unit):
         TOOLSIG = subprocess.run(['cbmc', '--version'], stdout=subprocess.PIPE).stdout.decode().strip()
     h = hashlib.sha256()
     for part in (kind, TOOLSIG, text, f.name, ' '.join(f.replace), ' '.join(f.flags), f.solver, str(f.unwind), str(f.objbits),
-                 str(f.no_enforce), str(getattr(f, 'no_loop_contracts', False)), ' '.join(CBMC_CHECKS), json.dumps(unit.defines, sort_keys=True)):
+                 str(f.no_enforce), str(getattr(f, 'no_loop_contracts', False)) + ('rec' if getattr(f, 'rec', False) else ''), ' '.join(CBMC_CHECKS), json.dumps(unit.defines, sort_keys=True)):
         h.update(part.encode()); h.update(b'\0')
     return h.hexdigest()
 
@@ -394,7 +394,8 @@ def _verify_fn(unit, f, text, base, cfile, outdir, r):
     gi = ['goto-instrument', '--nondet-static-matching', r'.*\.c:(?!vx_).*' if False else '', '--dfcc', entry]
     gi = ['goto-instrument', '--dfcc', entry]
     if not f.no_enforce:
-        gi += ['--enforce-contract', f.name]
+        # rec: the function's own recursive calls are assumed to satisfy the contract being proved (induction on the call depth, partial correctness)
+        gi += ['--enforce-contract-rec' if getattr(f, 'rec', False) else '--enforce-contract', f.name]
     for c in f.replace:
         gi += ['--replace-call-with-contract', c]
     if getattr(f, 'no_loop_contracts', False):
@@ -490,7 +491,7 @@ def _cover_fn(unit, f, unit_text, outdir):
     rc, so, se, dt = run(['goto-cc', '--function', entry] + defs + [base + '.c', '-o', base + '.a.gb'], 120)
     if rc != 0:
         return None, 'goto-cc failed on cover variant'
-    gi = ['goto-instrument', '--dfcc', entry, '--enforce-contract', f.name]
+    gi = ['goto-instrument', '--dfcc', entry, '--enforce-contract-rec' if getattr(f, 'rec', False) else '--enforce-contract', f.name]
     for c in f.replace:
         gi += ['--replace-call-with-contract', c]
     gi += ['--apply-loop-contracts', base + '.a.gb', base + '.b.gb']
